@@ -43,6 +43,7 @@ func HarnessC08Route() {
 	var seen []c08Seen
 	var outs [2][]*Message
 	var m0, m1 *Message
+	redeliveredTo0 := false
 	mk := func(i int, name string) (*handler, *directSubscriber, Publisher, string, string) {
 		p := "h" + strconv.Itoa(i) + "."
 		subTopic := vrt.PickStr(p+"subtopic", topics[0], topics[1])
@@ -105,6 +106,21 @@ func HarnessC08Route() {
 		seen = seen[:len(seen)-1]
 	}
 
+	if vrt.Bool("redeliver.to.h0") {
+		m1b := NewMessage("m1b", nil)
+		m1b.SetContext(m1.Context())
+		prev := len(outs[0])
+		sub0.chans[0] <- m1b
+		<-m1b.Acked()
+		last := seen[len(seen)-1]
+		vrt.Assert(last.handler == name0 && last.hName == name0 && last.subTopic == st0 && last.pubTopic == pt0, "the context reports the consuming handler's values even if the message was enriched elsewhere before")
+		seen = seen[:len(seen)-1]
+		if prev > 0 {
+			redeliveredTo0 = true
+		}
+		mwRuns--
+	}
+
 	vrt.Assert(len(seen) == 2, "each message is handled exactly once")
 	_ = name0
 	for _, s := range seen {
@@ -165,6 +181,9 @@ func HarnessC08Route() {
 	if redeliver && len(outs[1]) > 0 {
 		total++ // handler 1 ran twice
 	}
+	if redeliveredTo0 {
+		total++ // handler 0 ran twice
+	}
 	vrt.Assert(len(pubA.calls)+len(pubB.calls) == total, "and nowhere else")
 	vrt.Observe("pubcalls", len(pubA.calls)+len(pubB.calls))
 	cancel()
@@ -175,7 +194,12 @@ func HarnessC08NoPublisher() {
 	r, _ := NewRouter(RouterConfig{}, watermill.NopLogger{})
 	adds := vrt.Bool("mw.adds")
 	sub := &scriptedSubscriber{}
-	hh := r.AddNoPublisherHandler("N", "tn", sub, func(m *Message) error { return nil })
+	var inName, inSub, inPub string
+	hh := r.AddNoPublisherHandler("N", "tn", sub, func(m *Message) error {
+		c := m.Context()
+		inName, inSub, inPub = HandlerNameFromCtx(c), SubscribeTopicFromCtx(c), PublishTopicFromCtx(c)
+		return nil
+	})
 	hh.AddMiddleware(func(h HandlerFunc) HandlerFunc {
 		return func(m *Message) ([]*Message, error) {
 			out, err := h(m)
@@ -193,11 +217,19 @@ func HarnessC08NoPublisher() {
 	h.stopFn = cancel
 	go h.run(ctx, append([]middleware{}, r.middlewares...))
 	m := NewMessage("m", nil)
+	if vrt.Bool("arrives.enriched") {
+		// the message object was handled before by a handler (of any router) that had a publish topic
+		c := context.WithValue(context.Background(), handlerNameKey, "other")
+		c = context.WithValue(c, subscribeTopicKey, "other-in")
+		c = context.WithValue(c, publishTopicKey, "other-out")
+		m.SetContext(c)
+	}
 	sub.subs[0].in <- m
 	select {
 	case <-m.Acked():
 	case <-m.Nacked():
 	}
+	vrt.Assert(inName == "N" && inSub == "tn" && inPub == "", "inside the handler the context reports that handler's name and topics (it has no publish topic), whatever the message carried before")
 	vrt.Observe("settled", settlementOf(m))
 	if adds {
 		vrt.Assert(settlementOf(m) == 2, "output from a middleware in a no-publisher handler means Nack")
